@@ -73,7 +73,7 @@ def _variants(tree, depth, rng, full):
 
 
 def _cases(tree, depth, rng, full, descs=None, aspects=ASPECTS, scale=1, hfmt=None, dflt=0, cum=None,
-           variants=None, reuse=False):
+           variants=None, reuse=False, rids=None):
     """hfmt: format of the tensor's own ranks ("C"/"U" per rank, None = all "C"); dflt: the tensor's
     default (an integer like the leaves, divided by `scale` when built); cum: the codec's
     cumulative_payloads flags (None = all True); reuse: the Codec object has been used before it
@@ -94,6 +94,8 @@ def _cases(tree, depth, rng, full, descs=None, aspects=ASPECTS, scale=1, hfmt=No
                     c["dflt"] = dflt
                 if cum is not None:
                     c["cum"] = cum
+                if rids:
+                    c["rids"] = rids[("UCB".index(desc[-1]) + 3 * "UCB".index(desc[0]) + (1 if ish else 0)) % len(rids)]
                 if reuse:
                     c["reuse"] = reuse if isinstance(reuse, str) else REUSE[(len(desc) + "UCB".index(desc[0]) +
                                                                              (1 if ish else 0)) % 4]
@@ -123,6 +125,12 @@ def _wide_cases(rng, n):
 
 
 REUSE = ["other", "other+shape", "same", "same+shape"]
+# rank ids as the library produces them: dotted ids of split ranks (split once, twice), ids that are
+# prefixes of each other, lower-case ids, multi-character ids
+RIDS = {1: [["K"], ["K.0"], ["m"], ["Rank_1"]],
+        2: [["K.1", "K.0"], ["M", "MK"], ["K", "K.0"], ["n", "M"], ["K.0.1", "K.0.0"]],
+        3: [["K.1", "K.0.1", "K.0.0"], ["M", "K.1", "K.0"], ["A", "AB", "ABC"], ["M.1", "M.0", "K"]],
+        4: [["M.1", "M.0", "K.1", "K.0"], ["K.1", "K.0.1", "K.0.0.1", "K.0.0.0"]]}
 MASKSETS = [[40], [0, 64], [0, 33, 100], [31, 32, 64, 127, 128, 129], [5, 70, 140, 200], [127], [128], [0, 31, 63, 95, 96],
             [32, 33, 34, 160]]
 
@@ -167,7 +175,7 @@ def gen(seed, tier):
         # the tensor's own rank in format "U" / a non-zero (int, float) default
         h, df = ATTRS[i % 4]
         yield from _cases(f, 1, rng, False, hfmt=h, dflt=df, scale=(4 if df == 2 else 1), variants=2,
-                          cum=[i % 2 == 0], reuse=(i % 3 == 0))
+                          cum=[i % 2 == 0], reuse=(i % 3 == 0), rids=RIDS[1])
     # depth 2: 2 x 2 coordinates
     l2 = leaf_fibers(2, [0, 5])
     A2 = [(h, df) for h in ("UC", "CU", "UU", "CC") for df in (0, 7, 2) if (h, df) != ("CC", 0)]
@@ -175,7 +183,7 @@ def gen(seed, tier):
         yield from _cases(t, 2, rng, full, scale=(1 if i % 2 == 0 else 4))
         h, df = A2[i % len(A2)]
         yield from _cases(t, 2, rng, False, hfmt=h, dflt=df, scale=(4 if df == 2 else 1), variants=2,
-                          cum=[i % 2 == 0, i % 3 == 0], reuse=(i % 2 == 1))
+                          cum=[i % 2 == 0, i % 3 == 0], reuse=(i % 2 == 1), rids=RIDS[2])
     # depth 3: 2 x 2 x 2 coordinates
     l1 = leaf_fibers(2, [7])
     mids = list(trees2(2, l1))
@@ -187,7 +195,14 @@ def gen(seed, tier):
             yield from _cases(t, 3, rng, False, scale=(1 if i % 4 == 0 else 4))
         else:
             yield from _cases(t, 3, rng, False, hfmt="".join(rng.choice("CU") for _ in range(3)),
-                              dflt=rng.choice([0, 7]), variants=2, reuse=(i % 4 == 1))
+                              dflt=rng.choice([0, 7]), variants=2, reuse=(i % 4 == 1), rids=RIDS[3])
+    # rank ids that differ only in case (a legal tensor; decode aspect only: the fiber objects are unaffected)
+    for ridl, tree, dd in ((["K", "k"], [[0, [[1, 5]]], [1, [[0, 3], [1, 5]]]], 2),
+                           (["M", "K", "k"], [[0, [[1, [[0, 7]]]]], [1, [[0, [[0, 7], [1, 7]]]]]], 3),
+                           (["Ab", "aB"], [[1, [[0, 2]]]], 2)):
+        for c in _cases(tree, dd, rng, False, aspects=["decode"], variants=2):
+            c["rids"] = ridl
+            yield c
     # multi-digit coordinates, extents around the mask word size
     yield from _mask_cases()
     yield from _wide_cases(rng, 12 if tier == "quick" else 400)
@@ -206,7 +221,8 @@ def gen(seed, tier):
         asp = ASPECTS if full or i % 2 == 0 else [rng.choice(ASPECTS)]
         for c in _cases(tree, d, rng, False, descs, asp, scale=scale, hfmt=hfmt, dflt=dflt,
                         cum=[rng.random() < 0.5 for _ in range(d)], variants=None if i % 2 else 2,
-                        reuse=(rng.choice(REUSE) if rng.random() < 0.5 else False)):
+                        reuse=(rng.choice(REUSE) if rng.random() < 0.5 else False),
+                        rids=(RIDS[d] if rng.random() < 0.6 else None)):
             yield c
 
 
@@ -367,7 +383,7 @@ def run(case):
     ft = H.ft()
     Codec, names, TwoHandle = _mods()
     d, tree, desc = case["d"], case["t"], tuple(case["fmts"])
-    ids = [f"R{i}" for i in range(d)]
+    ids = list(case.get("rids") or [f"R{i}" for i in range(d)])
     scale = case.get("scale", 1)
     dflt = case.get("dflt", 0)
     fiber = _build(tree, d, scale, dflt)
@@ -422,9 +438,12 @@ def run(case):
         case["side"] = {"encode_no_exception:" + H.err_class(e): False}
         return case
     impl["root"] = [int(x) for x in out["payloads_root"]]
-    impl["cs"] = [[int(x) for x in out["coords_" + i.lower()]] for i in ids]
-    impl["ps"] = [[(_val(x, scale) if k == d - 1 else int(x)) for x in out["payloads_" + i.lower()]]
+    # the arrays of a rank are found under the tensor's own rank id (coords_<id>, payloads_<id>, lower case)
+    impl["cs"] = [[int(x) for x in out.get("coords_" + i.lower(), [_BADVAL])] for i in ids]
+    impl["ps"] = [[(_val(x, scale) if k == d - 1 else int(x)) for x in out.get("payloads_" + i.lower(), [_BADVAL])]
                   for k, i in enumerate(ids)]
+    if set(out) != {"payloads_root"} | {p + i.lower() for i in ids for p in ("coords_", "payloads_")}:
+        side["output_dict_has_exactly_the_ranks_arrays"] = False
     cache = _StubCache()
     fibs = []
     ext = case["ish"] or case["tshape"]
@@ -541,6 +560,11 @@ def signature(case, verdict, failed):
     asp = case["aspect"]
     tags = set(verdict.get("tags", []))
     why = verdict.get("why", "")
+    rids = [r.lower() for r in (case.get("rids") or [])]
+    if asp == "decode" and "spec" in failed and len(set(rids)) < len(rids) and \
+            len(set(case["rids"])) == len(rids) and not verdict.get("agree"):
+        # two ranks whose ids differ only in case share one pair of arrays
+        return "decode:rank-ids-differ-only-in-case"
     return f"{asp}:{'/'.join(sorted(failed))}:{why[:40]}"
 
 
